@@ -24,7 +24,7 @@ CLASSES = ('Bits', 'BitArray', 'ConstBitStream', 'BitStream')
 MUTABLE = ('BitArray', 'BitStream')
 STREAM = ('ConstBitStream', 'BitStream')
 ROUTES = ('bin', 'hex', 'oct', 'token', 'token_hit', 'bytes', 'bytes_win', 'bytearray', 'memoryview', 'bools', 'bitarray',
-          'bitarray_win', 'array', 'bytesio', 'bytesio_win', 'slice', 'slice_step', 'copy', 'ctor_of_other', 'file', 'file', 'file_len',
+          'bitarray_win', 'bitarray_le', 'bitarray_win_le', 'array', 'bytesio', 'bytesio_win', 'slice', 'slice_step', 'copy', 'ctor_of_other', 'file', 'file', 'file_len',
           'file_len', 'file_off', 'file_off_len', 'handle', 'handle_len', 'handle_off', 'fromstring', 'join', 'pack', 'int_zeros', 'uint_kw')
 FILE_ROUTES = ('file', 'file_len', 'file_off', 'file_off_len', 'handle', 'handle_len', 'handle_off')
 
@@ -151,6 +151,11 @@ class ERoute(Engine):
             return C(_ba.bitarray(bits))
         if route == 'bitarray_win':
             return C(bitarray=_ba.bitarray('1' * off + bits + '01'), offset=off, length=n)
+        if route == 'bitarray_le':
+            # the same bit sequence held by a bitarray of the other (little-endian) storage order
+            return C(_ba.bitarray(bits, endian='little'))
+        if route == 'bitarray_win_le':
+            return C(bitarray=_ba.bitarray('1' * off + bits + '01', endian='little'), offset=off, length=n)
         if route == 'array':
             return C(array.array('B', bits_to_bytes(bits))) if n % 8 == 0 else C(bin=bits)
         if route == 'bytesio':
